@@ -134,6 +134,9 @@ def trait_case(cid, rng, inversion):
     # a third of the methods are async (desugared by the macro: the delegating method is generated on another path)
     asy = {name: ("async " if rng.random() < 0.35 else "") for name, _c, _e in ms}
     L.append("#[::entrait::entrait(%s)] /*@inv*/" % opts)
+    # attributes below entrait on the trait itself: they stay on the user's trait and on nothing that is generated
+    tattrs = rng.sample(["/// trait docs", "#[allow(dead_code)]", "#[doc(hidden)]", "#[allow(clippy::all)]", "#[::vattr::mark(%s_t)]" % cid], rng.randint(0, 3))
+    L += tattrs
     L.append("pub trait Tr {")
     for name, cfg, extra in ms:
         for a in ([cfg] if cfg else []) + extra:
@@ -169,7 +172,8 @@ def trait_case(cid, rng, inversion):
         D.append('    ::vrt::phase("%s"); let r = %s; ::vrt::result(&r);' % (name, ("::vrt::block_on(app.%s(5))" if asy[name] else "app.%s(5)") % name))
     D.append("}")
     meta = {"family": "trait-inversion" if inversion else "trait", "methods": ms, "enabled": [m[0] for m in enabled],
-            "nontrivial": any(m[1] for m in ms), "marks": []}
+            "nontrivial": any(m[1] for m in ms) or bool(tattrs), "marks": [], "trait_attrs": tattrs,
+            "trait_mark": ("%s_t" % cid) if any("vattr" in a for a in tattrs) else None}
     return Case(cid, "\n".join(L + D) + "\n", meta=meta)
 
 
@@ -260,6 +264,20 @@ def check_case(c, rep, vlog):
                 rep.violation(c.id, "enabled-method-broken", "enabled method %s: %s" % (name, p))
             else:
                 rep.bump("cfg_enabled_members_called")
+        # trait-level attributes: on the re-emitted trait only, on no other generated item (C09 judges the trait itself)
+        user_attrs = {tuple(tok.leaves(a)) for a in tok.item_kind(r["input"])["attrs"]}
+        if m.get("trait_mark"):
+            # the foreign macro has already run when entrait sees the trait; what it must not do is run again
+            hits = [v for v in vlog if tok.render(v["attr"]) == m["trait_mark"]]
+            if len(hits) != 1:
+                rep.violation(c.id, "foreign-macro-ran:%d" % len(hits), "#[vattr::mark(%s)] on the trait ran %d times, expected exactly once" % (m["trait_mark"], len(hits)))
+            else:
+                rep.bump("foreign_macro_witnesses")
+        for it in items[1:]:
+            k = tok.item_kind(it)
+            copied = [tok.render(a) for a in k["attrs"] if tuple(tok.leaves(a)) in user_attrs]
+            if copied:
+                rep.violation(c.id, "trait-attr-copied:%s" % k["kind"], "attributes of the entraited trait were copied onto the generated %s `%s`: %s" % (k["kind"], k.get("name"), copied))
         if fam == "trait-inversion":
             blk = [x for x in recs if x["line"] == c.marks["impl"]]
             if blk:
